@@ -25,7 +25,7 @@ REQUIRED_BUCKETS = ['order:use-before-definition', 'order:definition-before-use'
                     'step:string', 'step:file', 'step:include', 'macro:scope-like-name', 'macro:evaluated-reference', 'macro:nested-macro', 'macro:literal',
                     'call:between-steps', 'call:unbound-macro-raises', 'const:unique-suffix', 'const:full-name', 'const:ambiguous', 'const:none-falls-to-macro',
                     'const:identity-in-container', 'const:invalid-name', 'const:duplicate', 'finalize:ok', 'finalize:unbound', 'finalize:unevaluated',
-                    'macro:used-twice-in-one-value', 'const:defined-between-parses', 'const:name-became-constant-after-use-as-macro', 'finalize:unbound-with-bound-prefix-macro', 'finalize:after-failed-query-of-unbound-macro', 'step:skip_unknown-enabled',
+                    'macro:used-twice-in-one-value', 'const:defined-between-parses', 'const:name-became-constant-after-use-as-macro', 'finalize:unbound-with-bound-prefix-macro', 'finalize:after-failed-query-of-unbound-macro', 'finalize:unbound-macro-in-dict-key', 'step:skip_unknown-enabled',
                     'history:clear_config-keeps-constants']
 ORACLE_COUNTERS = ['oracle_evals', 'consumer_calls', 'constant_lookups', 'finalize_checks']
 _S = {}
@@ -154,7 +154,8 @@ def iter_cases(ctx, rng, n):
         cands = ['q.LATEK'] + ['w2.' + c for c in consts]
         late.append([si, rng.choice(cands)])
     yield {'consts': consts, 'late_consts': late, 'steps': steps, 'finalize': rng.random() < 0.6, 'unevaluated': rng.random() < 0.15,
-           'bad_const': rng.choice([None, 'invalid', 'duplicate']), 'ambiguous_probe': rng.random() < 0.5, 'query_unbound_first': rng.random() < 0.5}
+           'bad_const': rng.choice([None, 'invalid', 'duplicate']), 'ambiguous_probe': rng.random() < 0.5, 'query_unbound_first': rng.random() < 0.5,
+           'keymacro': rng.choice([None, None, None, None, None, '{%c5_never_bound: 1}', '{(1, %c5_never_bound): [2]}', "{'k': {%c5_never_bound: 0}}", '{@c5_never_bound/gin.macro: 1}'])}
 
 
 def freeze(t, consts):
@@ -253,7 +254,7 @@ def run_case(ctx, case):
     nconst = len(gc._CONSTANTS)
     if case['bad_const'] == 'invalid':
       ctx.bucket('const:invalid-name')
-      bads = ['a..B', '1x.B', 'a b', '', 'a.', '.a', 'a/b', 'a-b']
+      bads = ['a..B', '1x.B', 'a b', '', 'a.', '.a', 'a/b', 'a-b', 'A\n', 'x.A\n', '\nA', 'A\r']
     else:
       ctx.bucket('const:duplicate')
       bads = list(case['consts'][:2]) or ['gin.REQUIRED']
@@ -395,7 +396,13 @@ def run_case(ctx, case):
             ctx.check(False, 'query-of-unbound-macro-answered', 'query_parameter(%%%s) answered although the macro was never bound' % m)
         except ValueError:
           ctx.count('oracle_evals')
-    if case['unevaluated']:
+    if case.get('keymacro') and not case['unevaluated']:
+      # a macro nobody binds, used as (part of) a dict key: still a referenced-but-unbound macro
+      gin.parse_config('c5cons.q = ' + case['keymacro'])
+      ctx.bucket('finalize:unbound-macro-in-dict-key')
+      unbound = unbound + ['c5_never_bound']
+      expect_fail = True
+    elif case['unevaluated']:
       gin.parse_config('c5cons.q = @m0/gin.macro')
       ctx.bucket('finalize:unevaluated')
       expect_fail = True
